@@ -122,9 +122,22 @@ fn open1<S: Scheme>(
     guard(|| S::PC::open(&keys.ck, [lp], [c], z, &mut sp, [st], Some(&mut r)))
 }
 
+thread_local! {
+    /// the verifier entry point of the current case: `check`, or `batch_check` on a one-label query set
+    static VIA_BATCH: std::cell::Cell<bool> = const { std::cell::Cell::new(false) };
+}
+
 fn check1<S: Scheme>(keys: &Keys<S>, c: &LC<S>, z: &S::Pt, v: S::F, proof: &Proof<S>) -> Out<bool> {
     let mut sp = sponge::<S::F>(0);
     let mut r = rng(7);
+    if VIA_BATCH.with(|b| b.get()) {
+        let mut qs = std::collections::BTreeSet::new();
+        qs.insert((c.label().clone(), ("z".to_string(), z.clone())));
+        let mut ev = std::collections::BTreeMap::new();
+        ev.insert((c.label().clone(), z.clone()), v);
+        let bp: BatchProof<S> = vec![proof.clone()].into();
+        return guard(|| S::PC::batch_check(&keys.vk, [c], &qs, &ev, &bp, &mut sp, &mut r));
+    }
     guard(|| S::PC::check(&keys.vk, [c], z, [v], proof, &mut sp, Some(&mut r)))
 }
 
@@ -208,6 +221,9 @@ where
         ctx.label("keys_failed(C09)");
         return Ok(());
     };
+    let via_batch = (c.seed >> 7) % 3 == 0;
+    VIA_BATCH.with(|b| b.set(via_batch));
+    ctx.label(if via_batch { "entry:batch_check(one label)" } else { "entry:check" });
     let info = keys.info.clone();
     let sup = info.supported;
     let enforced: Vec<usize> = if info.any_bound {
@@ -554,7 +570,7 @@ pub fn spec() -> PropertySpec {
     add!(Ipa);
     PropertySpec {
         id: "C04",
-        rule: "(iv) key requests whose enforced-bound list contains a bound in (supported, max] or beyond max (Marlin, Sonic): if trim serves such a key (MarlinKZG10 does for bounds <= max, by design), commit of a polynomial whose degree exceeds the supported degree must still fail. Three groups per scheme (Marlin, Sonic, IPA) over generated keys (max degree, supported degree, enforced set B, unsorted/duplicated): (i) admission grid - declared bound d drawn from B / from 1..=supported outside B / beyond supported, degree in {d-1,d,d+1}: commit (and open with a relabelled polynomial) must return Err or abort exactly when deg > d or d not in B or deg > supported, and an admissible boundary case must commit, open and verify; (ii) mislabel - commit under d' in B, present as d in B, d != d', deg <= min(d,d'), with the honest proof and with the library prover run on the relabelled polynomial and the old state: not accepted; (iii) the degree-bound part dropped (with and without the label), taken from another polynomial, or replaced by the plain commitment: not accepted. Points for (ii),(iii) are admissible by construction (Marlin: p(z) != 0; IPA: also z != 0 and z^(d-d') != 1; Sonic: any); polynomials in (iii) are non-constant. Non-trivial: d != max(B) or hiding present, and for (i) |deg - d| <= 1.",
+        rule: "(Every verification of a case goes either through check or - one case in three - through batch_check on a one-label query set.) (iv) key requests whose enforced-bound list contains a bound in (supported, max] or beyond max (Marlin, Sonic): if trim serves such a key (MarlinKZG10 does for bounds <= max, by design), commit of a polynomial whose degree exceeds the supported degree must still fail. Three groups per scheme (Marlin, Sonic, IPA) over generated keys (max degree, supported degree, enforced set B, unsorted/duplicated): (i) admission grid - declared bound d drawn from B / from 1..=supported outside B / beyond supported, degree in {d-1,d,d+1}: commit (and open with a relabelled polynomial) must return Err or abort exactly when deg > d or d not in B or deg > supported, and an admissible boundary case must commit, open and verify; (ii) mislabel - commit under d' in B, present as d in B, d != d', deg <= min(d,d'), with the honest proof and with the library prover run on the relabelled polynomial and the old state: not accepted; (iii) the degree-bound part dropped (with and without the label), taken from another polynomial, or replaced by the plain commitment: not accepted. Points for (ii),(iii) are admissible by construction (Marlin: p(z) != 0; IPA: also z != 0 and z^(d-d') != 1; Sonic: any); polynomials in (iii) are non-constant. Non-trivial: d != max(B) or hiding present, and for (i) |deg - d| <= 1.",
         assumptions: vec![
             "enforced sets stay inside the documented trim domain 1..=supported_degree",
             "degree-bound enforcement of Marlin and IPA is a polynomial identity at the query point: roots of p and points with z^(d-d')=1 are excluded as the modules document",
